@@ -233,8 +233,9 @@ pub fn job_sets(thorough: bool) -> Vec<Vec<Job>> {
         vec![j(1), j(1)],  // the identical call twice
         vec![j(9), j(5)],  // a call that unwinds next to a normal one
     ];
+    // three threads: union, xor and intersection on the same T22 operands
+    v.push(vec![j(5), j(6), j(4)]);
     if thorough {
-        v.push(vec![j(5), j(6), j(4)]);
         v.push(vec![j(1), j(1), j(1)]);
         v.push(vec![j(9), j(5), j(10)]);
         v.push(vec![j(0), j(3)]);
@@ -257,7 +258,7 @@ fn explore_jobs(st: &Stats, jobs: &[Job], bound: usize, set_index: usize, outcom
     let mut bad: Vec<(Vec<usize>, Vec<String>)> = vec![];
     let mut abandoned = 0u64;
     let mut diverged = 0u64;
-    let cap = 200_000;
+    let cap = 1_000_000;
     // single pass: run + visit share the outcome through a side channel
     let last: std::cell::RefCell<Vec<String>> = std::cell::RefCell::new(vec![]);
     let (n, maxp, capped) = explore(
@@ -490,7 +491,10 @@ pub fn run(tier: &str) -> i32 {
     let mut seen = BTreeSet::new();
     let sets = job_sets(thorough);
     for (i, jobs) in sets.iter().enumerate() {
-        let bound = if jobs.len() >= 3 { 2 } else if thorough { 3 } else { 2 };
+        // preemption bound 2; the thorough tier uses bound 3 for pairs of calls that are short enough for the
+        // bound to be completed (at most 60 scheduling points)
+        let points = run_schedule(jobs, &[]).1.points.len();
+        let bound = if thorough && jobs.len() == 2 && points <= 60 { 3 } else { 2 };
         explore_jobs(&st, jobs, bound, i, &mut seen);
     }
     st.add("distinct_outcome_vectors_over_all_schedules", seen.len() as u64);
